@@ -7,13 +7,11 @@
 -/
 import XotModel.Lemmas.CompareRel
 import XotModel.Lemmas.CompareText
+import XotModel.Model.ValidDoc
 
 namespace XotModel
 
-def Value.isCommentOrPi : Value → Bool
-  | .comment _ => true
-  | .pi _ _ => true
-  | _ => false
+-- `Value.isCommentOrPi` is the one of `Model/ValidDoc.lean`.
 
 mutual
 /-- Delete every comment and processing instruction below the root (with whatever hangs under
